@@ -187,14 +187,29 @@ def _varint_quic(n):
 
 # --- DNS wire
 _label_ok = st.sampled_from([b"www", b"example", b"com", b"a", b"xn--bcher-kva", b"_tcp", b"x-y", b"a" * 63, b"mail", b"org", b"A", b"Example"])
-_label = st.one_of(*([_label_ok] * 14), st.sampled_from([b"a b", b"\x1b[31m", b"\xc3\xa9", b"\xff", b"\x00", b"*"]))
+# labels / texts that look like some other encoding of record data (hex dump, IP address, YAML/JSON scalars and syntax)
+_label_alike = st.sampled_from([b"0x", b"0x41", b"0xcafe", b"0X41", b"0xzz", b"0x0", b"1", b"2", b"10", b"192", b"168", b"255", b"256", b"00", b"1e3",
+                                b"null", b"true", b"no", b"~", b"-a", b"-", b"--", b"a-", b"123", b"0", b"ff", b"dead", b"beef", b"_", b"invalid"])
+_label = st.one_of(*([_label_ok] * 10), *([_label_alike] * 4), st.sampled_from([b"a b", b"\x1b[31m", b"\xc3\xa9", b"\xff", b"\x00", b"*"]))
+_txt_alike = st.sampled_from([
+    b"", b"0x", b"0x41", b"0x4", b"0xzz", b"0X41", b"x0x41", b" 0x41", b"0x52908400098527886E0F7030069857D2E4169EE7", b"0x41 (invalid TXT data)", b"0x (",
+    b"1.2.3.4", b"192.168.0.1", b"::1", b"2001:db8::1", b"256.1.1.1", b"12345", b"-1", b"1e3", b"0o17", b"0b1", b"1_000", b".5", b"+1",
+    b"null", b"Null", b"~", b"true", b"false", b"yes", b"no", b"on", b"off", b"key: value # not a comment", b"a: b", b"# c", b"- a", b"-", b"--- x", b"...",
+    b"? a", b"&a", b"*a", b"!a", b"|", b">", b"%TAG", b"@a", b"`a", b"[1, 2]", b"{a: 1}", b"{\"a\": 1}", b"\"q\"", b"'q'", b"'", b"\"", b"a'b\"c", b"\\n", b"\\",
+    b" lead", b"trail ", b"  ", b"a  b", b"a\tb", b"a\nb", b"a\r\nb", b"\n", b"line1\nline2\n", b"2001-01-01", b"2001-01-01T00:00:00Z", b"12:30:45", b"=", b"<<",
+    "\u00e9".encode(), "\u2028".encode(), "\ufeffbom".encode(), b"v=spf1 include:_spf.example.com ~all", b"x" * 255,
+])
 _dname = st.lists(_label, min_size=0, max_size=4)
-_TYPES = {"A": 1, "NS": 2, "CNAME": 5, "SOA": 6, "PTR": 12, "MX": 15, "TXT": 16, "AAAA": 28, "SRV": 33, "HTTPS": 65, "T99": 99}
+_TYPES = {"A": 1, "NS": 2, "CNAME": 5, "SOA": 6, "PTR": 12, "MX": 15, "TXT": 16, "AAAA": 28, "SRV": 33, "HTTPS": 65, "T99": 99, "TXTRAW": 16}
 _rdata = st.one_of(
     st.tuples(st.just("A"), st.binary(min_size=4, max_size=4)),
     st.tuples(st.just("AAAA"), st.binary(min_size=16, max_size=16)),
     st.tuples(st.sampled_from(["NS", "CNAME", "PTR"]), _dname),
     st.tuples(st.just("TXT"), st.lists(st.one_of(_nb, st.binary(max_size=8), st.sampled_from([b"v=spf1 -all", b"hello"])).map(lambda b: b[:255]), min_size=1, max_size=2)),
+    # well-formed character-strings with look-alike texts (incl. length byte 0x30 = "0" followed by "x...": the RDATA reads "0x...")
+    st.tuples(st.just("TXT"), st.lists(st.one_of(_txt_alike, _txt_alike, st.sampled_from([b"x" + b"4" * 47, b"x" + b"41" * 23 + b"z", b"x41" + b"0" * 45])), min_size=1, max_size=2)),
+    # RDATA that is just the text (no length prefix): any bytes are RDATA a peer can send; mitmproxy treats TXT data opaquely
+    st.tuples(st.just("TXTRAW"), _txt_alike),
     st.tuples(st.just("MX"), st.tuples(st.integers(0, 65535), _dname).map(list)),
     st.tuples(st.just("HTTPS"), st.sampled_from([b"\x00\x01\x00", b"\x00\x01\x00\x00\x01\x00\x03\x02h2", b"\x00\x00\x03www\x00"])),
     st.tuples(st.just("T99"), st.binary(max_size=10)),
@@ -224,7 +239,7 @@ def dns_wire(m):
         out += _pack_name(n) + struct.pack("!HH", t, c)
     for sec in ("answers", "authorities", "additionals"):
         for name, (t, d), cls, ttl in m[sec]:
-            if t in ("A", "AAAA", "T99", "HTTPS"):
+            if t in ("A", "AAAA", "T99", "HTTPS", "TXTRAW"):
                 rd = bytes(d)
             elif t == "TXT":
                 rd = b"".join(bytes([len(bytes(s))]) + bytes(s) for s in d)
@@ -286,19 +301,22 @@ def _case(draw):
             elif op[0] == "splice":
                 i = op[1] % (len(data) + 1)
                 data = data[:i] + op[2] + data[i:]
-    mode = draw(st.sampled_from(["auto", "auto", "own", "own", "any"]))
+    mode = draw(st.sampled_from(["auto", "auto", "own", "own", "any"] + (["own", "own", "auto"] if fam == "dns" else [])))
     own = {"json": "json", "xml": "xml/html", "css": "viewcss", "js": "javascript", "graphql": "graphql", "protobuf": "protobuf", "grpc": "grpc",
            "mqtt": "mqtt", "multipart": "multipart form", "urlencoded": "url-encoded", "msgpack": "msgpack", "image": "image", "zip": "zip archive",
            "dns": "dns", "socketio": "socket.io", "wbxml": "wbxml", "h3": "http/3 frames", "bytes": "hex dump"}[fam]
     view = "auto" if mode == "auto" else own if mode == "own" else draw(st.sampled_from(VIEWS))
-    msg = draw(st.sampled_from(["http-req", "http-resp", "http-resp", "tcp", "udp", "ws-text", "ws-bin"] + (["dns", "dns", "udp", "tcp", "dns"] if fam == "dns" else [])))
+    if fam == "dns":   # mostly the transports DNS really uses, so that the round-trip part gets exercised
+        msg = draw(st.sampled_from(["dns"] * 5 + ["udp"] * 4 + ["tcp"] * 4 + ["http-req", "http-resp", "ws-bin", "ws-text"]))
+    else:
+        msg = draw(st.sampled_from(["http-req", "http-resp", "http-resp", "tcp", "udp", "ws-text", "ws-bin"]))
     if fam == "dns" and msg == "tcp":
         data = struct.pack("!H", len(data) & 0xFFFF) + data   # DNS over TCP carries a length prefix
     ctype = draw(st.one_of(st.none(), st.sampled_from(CTYPES[fam]), st.sampled_from(CTYPES[fam]), st.sampled_from(CTYPES[fam]),
                            st.sampled_from(sum(CTYPES.values(), [])), _odd_ctype))
     # a second Content-Type header (duplicated / conflicting), rarely
     ctype2 = draw(st.one_of(st.none(), st.none(), st.none(), st.none(), st.none(), st.sampled_from(CTYPES[fam]), _odd_ctype))
-    return {"family": fam, "data": data, "view": view, "msg": msg, "ctype": ctype, "ctype2": ctype2, "port": draw(st.sampled_from([80, 443, 53, 5353, 1883])),
+    return {"family": fam, "data": data, "view": view, "msg": msg, "ctype": ctype, "ctype2": ctype2, "port": draw(st.sampled_from([53, 53, 53, 5353, 80] if fam == "dns" else [80, 443, 53, 5353, 1883])),
             "cenc": draw(st.sampled_from([None, None, None, None, b"gzip", b"identity", b"nope"]))}
 
 
